@@ -475,14 +475,20 @@ struct RGRegInv : IRunner
 template <GEigsMode Mode>
 struct RGShift : IRunner
 {
-    typedef Ctl<SymShiftInvert<double, Eigen::Dense, Eigen::Dense>> Op; typedef Ctl<DenseSymMatProd<double>> BOp;
+    // mixed triangle options: the first matrix is handed over through its lower triangle, the second through its upper one;
+    // the other triangles hold values that must never be read
+    typedef Ctl<SymShiftInvert<double, Eigen::Dense, Eigen::Dense, Eigen::Lower, Eigen::Upper>> Op; typedef Ctl<DenseSymMatProd<double>> BOp;
     typedef SymGEigsShiftSolver<Op, BOp, Mode> S;
+    Mat first_stored, second_stored;
     std::unique_ptr<Op> op; std::unique_ptr<BOp> bop; std::unique_ptr<S> s;
     // ShiftInvert / Cayley: pencil (A, B), Bop = B.  Buckling: pencil (K, KG) with K = prob.B (SPD), KG = prob.A, Bop = K.
     RGShift(const Problem& p, int nev_, int ncv_, const char* name)
     {
         prob = p; cls = name; nev = nev_; ncv = ncv_;
-        if (Mode == GEigsMode::Buckling) op.reset(new Op(prob.B, prob.A)); else op.reset(new Op(prob.A, prob.B));
+        first_stored = (Mode == GEigsMode::Buckling) ? prob.B : prob.A; second_stored = (Mode == GEigsMode::Buckling) ? prob.A : prob.B;
+        for (long i = 0; i < prob.n; i++) for (long j = 0; j < prob.n; j++)
+        { if (i < j) first_stored(i, j) = 31.0 + i - j; if (i > j) second_stored(i, j) = -17.0 - i + 2 * j; }
+        op.reset(new Op(first_stored, second_stored));
         op->ctl = &ctl; bop.reset(new BOp(prob.B)); bop->ctl = &ctlB;
         s.reset(new S(*op, *bop, nev, ncv, prob.sigma));
     }
